@@ -940,6 +940,11 @@ func (p *BinaryProtocol) ReadLength() (int, error) {
 	if n < 0 {
 		return 0, errDecodeField
 	}
+	// the length is an arbitrary uint64: it must not exceed the bytes left, and is compared before
+	// the conversion so that the callers never see a negative or overflowing length
+	if value > uint64(len(p.Buf)-p.Read-n) {
+		return 0, io.ErrUnexpectedEOF
+	}
 	_, err := p.next(n)
 	return int(value), err
 }
